@@ -194,7 +194,10 @@ def run_genotype(
                 logger.info("Using uniform recombination rate of %g cM/Mb.", recombrate)
             recombination_cost_computer = UniformRecombinationCostComputer(recombrate)
 
-        samples = frozenset(samples)
+        # Keep the samples in the order of the VCF: the order of the members of a family decides
+        # the order of floating point operations, and that of a set changes from run to run
+        requested_samples = frozenset(samples)
+        samples = [sample for sample in vcf_reader.samples if sample in requested_samples]
         families, family_trios = setup_families(samples, ped, max_coverage)
         for trios in family_trios.values():
             for trio in trios:
